@@ -104,6 +104,17 @@ func genSilNCase(r *vh.Rand) Case {
 			c.Sils = append(c.Sils, mk(genSemMatcher(r, c.LS)))
 		}
 	}
+	if r.Chance(1, 3) { // a maintenance silence listing many hosts, alive together with the others
+		m, kv := genLongAlt(r)
+		var ls []KV
+		for _, x := range c.LS {
+			if string(x.K) != string(kv.K) {
+				ls = append(ls, x)
+			}
+		}
+		c.LS = append(ls, kv)
+		c.Sils = append(c.Sils, mk(m))
+	}
 	vh.Shuffle(r, c.Sils)
 	return c
 }
